@@ -200,16 +200,18 @@ func LoadCorpus(repo string) (*Corpus, error) {
 	// members no shipped example carries (logos with inline data, online payment
 	// instructions, attachments, item identities, substituted lines, telephones,
 	// e-mails, a registration): each group is kept only if the tree under test
-	// still builds and validates the document with it
+	// still builds and validates the document with it (inline data is a whole number
+	// of 3-byte groups: base64 text without padding has no spare bits, so every
+	// altered character is other bytes and not a respelling of the same ones)
 	if base := c.byName["examples/es/invoice-es-es"]; base != nil && base.Err == "" && !base.IsEnv {
 		if v, err := ParseJV(base.Src); err == nil && v.Get("supplier") != nil && v.Get("lines") != nil && len(v.Get("lines").A) > 0 {
 			dig := `{"alg":"sha256","val":"559aead08264d5795d3909718cdd05abd49572e84fe55590eef31a88a08fdffd"}`
 			groups := []struct{ at, key, val string }{
-				{"supplier", "logos", `[{"label":"logo","url":"https://example.com/logo.png","mime":"image/png","height":128,"width":128,"digest":` + dig + `},{"label":"inline","data":"QQ==","mime":"image/png","digest":` + dig + `}]`},
+				{"supplier", "logos", `[{"label":"logo","url":"https://example.com/logo.png","mime":"image/png","height":128,"width":128,"digest":` + dig + `},{"label":"inline","data":"QUJD","mime":"image/png","digest":` + dig + `}]`},
 				{"supplier", "telephones", `[{"label":"office","num":"+34 910 000 000"}]`},
 				{"supplier", "emails", `[{"label":"billing","addr":"billing@example.com"}]`},
 				{"supplier", "registration", `{"capital":"3000.00","currency":"EUR","office":"Madrid","book":"1","volume":"2","sheet":"3","section":"4","page":"5","entry":"6"}`},
-				{"", "attachments", `[{"key":"sales","name":"terms.pdf","url":"https://example.com/terms.pdf","mime":"application/pdf","digest":` + dig + `},{"name":"a.txt","data":"QQ==","mime":"text/csv","description":"inline"}]`},
+				{"", "attachments", `[{"key":"sales","name":"terms.pdf","url":"https://example.com/terms.pdf","mime":"application/pdf","digest":` + dig + `},{"name":"a.txt","data":"QUJD","mime":"text/csv","description":"inline"}]`},
 				{"payment", "instructions", `{"key":"online","detail":"pay on the web","online":[{"key":"portal","label":"Pay now","url":"https://pay.example.com/inv/1"}]}`},
 				{"lines/0/item", "identities", `[{"label":"SKU","code":"A-100"},{"key":"gtin","code":"0012345678905"}]`},
 				{"lines/0", "substituted", `[{"quantity":"1","item":{"name":"what was ordered","price":"90.00"}}]`},
